@@ -7,7 +7,7 @@ package extractor
 // The counters, the per-worker context and the channel field are only written here.
 //@ private Extractor writers (*extractorInstance).processLineSync, New
 //@ private SliceSpaceExpressionContext writers (*extractorInstance).processLineSync, (*Extractor).asyncWorker
-//@ private Config writers New
+//@ private Config writers New, BuildExtractorFromArgumentsEx
 //@ private extractorInstance writers (*Extractor).asyncWorker
 //@ atomicfield Extractor.readLines, Extractor.matchedLines, Extractor.ignoredLines
 
